@@ -3,7 +3,7 @@
    with which merged path) does not depend on dependencies, and every survivor's dependencies go
    through one substitution; with unique ids that substitution is [rep l] (the first fetch with
    the same key). *)
-From Gv Require Import lib.Bytes C08.Model C08.Spec C08.ProofsSpec C09.Model C09.Spec C09.ProofsBase.
+From Gv Require Import lib.Bytes C08.Model C08.Spec C08.ProofsSpec C08.ProofsOrganize C09.Model C09.Spec C09.ProofsBase.
 From Coq Require Import List Arith Bool NArith Permutation Lia.
 Import ListNotations.
 Local Open Scope nat_scope.
@@ -74,9 +74,9 @@ Proof.
   induction olds as [| o olds IH]; intros f.
   - unfold redirect_all. simpl. symmetry. unfold sub. simpl. apply D_id.
   - unfold redirect_all in *. simpl. rewrite IH, redirect_D, D_D. apply D_ext. intros d.
-    unfold sub. simpl. destruct (d =? o) eqn:E.
-    + apply Nat.eqb_eq in E. subst. rewrite Nat.eqb_refl. simpl. now destruct (memb new olds).
-    + rewrite Nat.eqb_sym in E. rewrite E. reflexivity.
+    unfold sub, memb. simpl. destruct (d =? o) eqn:E; simpl.
+    + now destruct (existsb (Nat.eqb new) olds).
+    + reflexivity.
 Qed.
 
 (* ---- the inner loop ---- *)
@@ -115,10 +115,13 @@ Proof.
     + rewrite IH. destruct (scan x r) as [[x' r'] olds]. reflexivity.
 Qed.
 
+Lemma filter_len {A} (f : A -> bool) l : length (filter f l) <= length l.
+Proof. induction l as [| x l IH]; simpl; [lia |]. destruct (f x); simpl; lia. Qed.
+
 Lemma scan_length x tail : length (snd (fst (scan x tail))) <= length tail.
 Proof.
   pose proof (scan_spec tail x) as H. destruct (scan x tail) as [[x' r'] olds]. destruct H as [-> _].
-  simpl. apply filter_length_le.
+  simpl. apply filter_len.
 Qed.
 
 (* ---- the skeleton: survivors and the composite substitution ---- *)
@@ -178,3 +181,374 @@ Qed.
 
 Theorem dedup_fact l : dedup l = map (D (sigma (length l) l)) (nub (length l) l).
 Proof. unfold dedup. now rewrite loop_fact by lia. Qed.
+
+(* ---- facts about find / filter ---- *)
+Lemma find_filter {A} (p q : A -> bool) : forall l,
+  (forall z, In z l -> p z = true -> q z = true) -> find p (filter q l) = find p l.
+Proof.
+  induction l as [| x l IH]; intros H; simpl; [reflexivity |].
+  destruct (q x) eqn:Eq; simpl.
+  - destruct (p x); [reflexivity |]. apply IH. intros z Hz. apply H. now right.
+  - destruct (p x) eqn:Ep.
+    + rewrite (H x (or_introl eq_refl) Ep) in Eq. discriminate.
+    + apply IH. intros z Hz. apply H. now right.
+Qed.
+
+Lemma find_filter_some {A} (p q : A -> bool) y : forall l,
+  find p l = Some y -> q y = true -> find p (filter q l) = Some y.
+Proof.
+  induction l as [| x l IH]; intros H Hq; simpl in *; [discriminate |].
+  destruct (p x) eqn:Ep.
+  - injection H as ->. rewrite Hq. simpl. now rewrite Ep.
+  - destruct (q x); simpl; [rewrite Ep |]; now apply IH.
+Qed.
+
+Lemma find_id_none l d : find_id l d = None <-> ~ In d (lids l).
+Proof.
+  unfold find_id, lids. induction l as [| x l IH]; simpl.
+  - tauto.
+  - destruct (lf_id x =? d) eqn:E.
+    + apply Nat.eqb_eq in E. split; [discriminate | intros H; exfalso; apply H; now left].
+    + apply Nat.eqb_neq in E. rewrite IH. tauto.
+Qed.
+
+Lemma find_id_some l d y : find_id l d = Some y -> In y l /\ lf_id y = d.
+Proof.
+  unfold find_id. intros H. apply find_some in H. destruct H as [H1 H2]. apply Nat.eqb_eq in H2. now split.
+Qed.
+
+Lemma find_id_in l f : NoDup (lids l) -> In f l -> find_id l (lf_id f) = Some f.
+Proof.
+  unfold find_id, lids. induction l as [| x l IH]; intros Hnd Hin; simpl in *; [contradiction |].
+  inversion Hnd as [| ? ? Hn Hnd']; subst. destruct Hin as [-> | Hin].
+  - now rewrite Nat.eqb_refl.
+  - destruct (lf_id x =? lf_id f) eqn:E.
+    + apply Nat.eqb_eq in E. exfalso. apply Hn. rewrite E. now apply in_map.
+    + now apply IH.
+Qed.
+
+Lemma lids_filter_incl q l : incl (lids (filter q l)) (lids l).
+Proof. unfold lids. intros d H. apply in_map_iff in H. destruct H as [f [<- Hf]]. apply filter_In in Hf. apply in_map. tauto. Qed.
+
+Lemma NoDup_lids_filter q l : NoDup (lids l) -> NoDup (lids (filter q l)).
+Proof.
+  unfold lids. induction l as [| x l IH]; intros H; simpl; [constructor |].
+  inversion H as [| ? ? Hn Hnd]; subst. destruct (q x); simpl.
+  - constructor; [| now apply IH]. intros Hin. apply Hn. now apply (lids_filter_incl q l).
+  - now apply IH.
+Qed.
+
+(* ---- survivors ---- *)
+Lemma nub_cons k x tail :
+  exists x', nub (S k) (x :: tail) = x' :: nub k (filter (fun y => negb (equal_single_fetch x y)) tail) /\
+             key x' = key x /\ lf_id x' = lf_id x /\ lf_deps x' = lf_deps x.
+Proof.
+  simpl. pose proof (scan_spec tail x) as H. destruct (scan x tail) as [[x' r'] olds].
+  destruct H as [-> [_ [H3 [H4 H5]]]]. exists x'. auto.
+Qed.
+
+Lemma sigma_cons k x tail d :
+  sigma (S k) (x :: tail) d =
+  sigma k (filter (fun y => negb (equal_single_fetch x y)) tail)
+        (sub (map lf_id (filter (equal_single_fetch x) tail)) (lf_id x) d).
+Proof.
+  simpl. pose proof (scan_spec tail x) as H. destruct (scan x tail) as [[x' r'] olds].
+  destruct H as [-> [-> _]]. reflexivity.
+Qed.
+
+Lemma esf_trans_false x z f :
+  equal_single_fetch x f = false -> equal_single_fetch z f = true -> negb (equal_single_fetch x z) = true.
+Proof.
+  intros H1 H2. apply negb_true_iff. destruct (equal_single_fetch x z) eqn:E; [| reflexivity].
+  apply esf_key in E. apply esf_key in H2. assert (key x = key f) by congruence.
+  apply esf_key in H. congruence.
+Qed.
+
+Lemma nub_origin : forall fuel l, length l <= fuel ->
+  forall g, In g (nub fuel l) ->
+  exists f, In f l /\ lf_id g = lf_id f /\ lf_deps g = lf_deps f /\ key g = key f /\ first_with_key l f = Some f.
+Proof.
+  induction fuel as [| k IH]; intros l Hlen g Hg.
+  - destruct l; [contradiction | simpl in Hlen; lia].
+  - destruct l as [| x tail]; [contradiction |].
+    destruct (nub_cons k x tail) as [x' [Hn [Hk [Hi Hd]]]]. rewrite Hn in Hg. destruct Hg as [<- | Hg].
+    + exists x. repeat split; auto; [now left |]. unfold first_with_key. simpl. now rewrite esf_refl.
+    + assert (Hl : length (filter (fun y => negb (equal_single_fetch x y)) tail) <= k).
+      { pose proof (filter_len (fun y => negb (equal_single_fetch x y)) tail). simpl in Hlen. lia. }
+      destruct (IH _ Hl g Hg) as [f [Hf [H1 [H2 [H3 H4]]]]].
+      apply filter_In in Hf. destruct Hf as [Hf Hxf]. apply negb_true_iff in Hxf.
+      exists f. repeat split; auto; [now right |].
+      unfold first_with_key in *. simpl. rewrite Hxf.
+      rewrite <- H4. symmetry. apply find_filter. intros z _ Hz. now apply (esf_trans_false x z f).
+Qed.
+
+Lemma nub_covers : forall fuel l, length l <= fuel ->
+  forall f, In f l -> exists g, In g (nub fuel l) /\ key g = key f.
+Proof.
+  induction fuel as [| k IH]; intros l Hlen f Hf.
+  - destruct l; [contradiction | simpl in Hlen; lia].
+  - destruct l as [| x tail]; [contradiction |].
+    destruct (nub_cons k x tail) as [x' [Hn [Hk [Hi Hd]]]]. rewrite Hn.
+    destruct (equal_single_fetch x f) eqn:E.
+    + exists x'. split; [now left |]. apply esf_key in E. congruence.
+    + destruct Hf as [-> | Hf]; [rewrite esf_refl in E; discriminate |].
+      assert (Hl : length (filter (fun y => negb (equal_single_fetch x y)) tail) <= k).
+      { pose proof (filter_len (fun y => negb (equal_single_fetch x y)) tail). simpl in Hlen. lia. }
+      destruct (IH _ Hl f) as [g [Hg Hkg]].
+      { apply filter_In. split; [exact Hf | now rewrite E]. }
+      exists g. split; [now right | exact Hkg].
+Qed.
+
+Lemma nub_keys_nodup : forall fuel l, length l <= fuel -> NoDup (map key (nub fuel l)).
+Proof.
+  induction fuel as [| k IH]; intros l Hlen.
+  - destruct l; [constructor | simpl in Hlen; lia].
+  - destruct l as [| x tail]; [constructor |].
+    destruct (nub_cons k x tail) as [x' [Hn [Hk [Hi Hd]]]]. rewrite Hn. simpl.
+    assert (Hl : length (filter (fun y => negb (equal_single_fetch x y)) tail) <= k).
+    { pose proof (filter_len (fun y => negb (equal_single_fetch x y)) tail). simpl in Hlen. lia. }
+    constructor; [| now apply IH].
+    intros Hin. apply in_map_iff in Hin. destruct Hin as [g [Hkg Hg]].
+    destruct (nub_origin k _ Hl g Hg) as [f [Hf [_ [_ [Hkf _]]]]].
+    apply filter_In in Hf. destruct Hf as [_ Hxf]. apply negb_true_iff in Hxf.
+    assert (key x = key f) by congruence. apply esf_key in H. congruence.
+Qed.
+
+Lemma nub_ids_incl : forall fuel l, length l <= fuel -> incl (lids (nub fuel l)) (lids l).
+Proof.
+  intros fuel l Hlen d Hd. unfold lids in Hd. apply in_map_iff in Hd. destruct Hd as [g [<- Hg]].
+  destruct (nub_origin fuel l Hlen g Hg) as [f [Hf [Hi _]]]. rewrite Hi. unfold lids. now apply in_map.
+Qed.
+
+Lemma nub_ids_nodup : forall fuel l, length l <= fuel -> NoDup (lids l) -> NoDup (lids (nub fuel l)).
+Proof.
+  induction fuel as [| k IH]; intros l Hlen Hnd.
+  - destruct l; [constructor | simpl in Hlen; lia].
+  - destruct l as [| x tail]; [constructor |].
+    destruct (nub_cons k x tail) as [x' [Hn [Hk [Hi Hd]]]]. rewrite Hn. unfold lids in *. simpl.
+    assert (Hl : length (filter (fun y => negb (equal_single_fetch x y)) tail) <= k).
+    { pose proof (filter_len (fun y => negb (equal_single_fetch x y)) tail). simpl in Hlen. lia. }
+    simpl in Hnd. inversion Hnd as [| ? ? Hnx Hnt]; subst.
+    constructor.
+    + rewrite Hi. intros Hin. apply Hnx.
+      apply (lids_filter_incl (fun y => negb (equal_single_fetch x y)) tail).
+      now apply (nub_ids_incl k _ Hl).
+    + apply IH; [exact Hl |]. now apply NoDup_lids_filter.
+Qed.
+
+(* ---- with unique ids the composite substitution is [rep] ---- *)
+Lemma lids_inj l a b : NoDup (lids l) -> In a l -> In b l -> lf_id a = lf_id b -> a = b.
+Proof.
+  intros Hnd Ha Hb E. pose proof (find_id_in l a Hnd Ha) as H1. pose proof (find_id_in l b Hnd Hb) as H2.
+  rewrite E in H1. congruence.
+Qed.
+
+Lemma sigma_rep : forall fuel l, length l <= fuel -> NoDup (lids l) -> forall d, sigma fuel l d = rep l d.
+Proof.
+  induction fuel as [| k IH]; intros l Hlen Hnd d.
+  - destruct l; [reflexivity | simpl in Hlen; lia].
+  - destruct l as [| x tail]; [reflexivity |].
+    rewrite sigma_cons.
+    set (tail' := filter (fun y => negb (equal_single_fetch x y)) tail).
+    set (olds := map lf_id (filter (equal_single_fetch x) tail)).
+    assert (Hl : length tail' <= k).
+    { pose proof (filter_len (fun y => negb (equal_single_fetch x y)) tail). simpl in Hlen. unfold tail'. lia. }
+    assert (Hnd' : NoDup (lids tail')).
+    { unfold tail'. apply NoDup_lids_filter. unfold lids in *. simpl in Hnd. now inversion Hnd. }
+    assert (Hnx : ~ In (lf_id x) (lids tail)).
+    { unfold lids in *. simpl in Hnd. now inversion Hnd. }
+    assert (Hndt : NoDup (lids tail)).
+    { unfold lids in *. simpl in Hnd. now inversion Hnd. }
+    assert (Hx_fix : sigma k tail' (lf_id x) = lf_id x).
+    { rewrite IH by assumption. unfold rep.
+      assert (find_id tail' (lf_id x) = None) as ->; [| reflexivity].
+      apply find_id_none. intros Hin. apply Hnx. unfold tail' in Hin. now apply lids_filter_incl in Hin. }
+    unfold rep. unfold find_id at 1. simpl.
+    destruct (lf_id x =? d) eqn:Exd.
+    + (* d is the id of x *)
+      apply Nat.eqb_eq in Exd. subst d.
+      unfold first_with_key. simpl. rewrite esf_refl.
+      unfold sub. assert (memb (lf_id x) olds = false) as ->.
+      { apply memb_false. intros Hin. apply Hnx. unfold olds in Hin.
+        now apply (lids_filter_incl (equal_single_fetch x) tail). }
+      exact Hx_fix.
+    + fold (find_id tail d). destruct (find_id tail d) as [y |] eqn:Ey.
+      * apply find_id_some in Ey as Hy. destruct Hy as [Hy Hid].
+        unfold first_with_key. simpl. destruct (equal_single_fetch x y) eqn:Exy.
+        -- (* y is a duplicate of x *)
+           unfold sub. assert (memb d olds = true) as ->.
+           { apply memb_In. unfold olds. rewrite <- Hid. apply in_map. apply filter_In. now split. }
+           exact Hx_fix.
+        -- unfold sub. assert (memb d olds = false) as ->.
+           { apply memb_false. intros Hin. unfold olds in Hin. apply in_map_iff in Hin.
+             destruct Hin as [z [Hz Hzf]]. apply filter_In in Hzf. destruct Hzf as [Hzt Hxz].
+             assert (z = y) by (apply (lids_inj tail); auto; congruence). subst z. congruence. }
+           rewrite IH by assumption. unfold rep.
+           assert (find_id tail' d = Some y) as ->.
+           { unfold find_id, tail'. apply find_filter_some; [exact Ey | now rewrite Exy]. }
+           unfold first_with_key, tail'.
+           rewrite find_filter; [reflexivity |].
+           intros z _ Hz. now apply (esf_trans_false x z y).
+      * (* d is not an id of the list *)
+        apply find_id_none in Ey as Hno.
+        unfold sub. assert (memb d olds = false) as ->.
+        { apply memb_false. intros Hin. apply Hno. unfold olds in Hin.
+          now apply (lids_filter_incl (equal_single_fetch x) tail). }
+        rewrite IH by assumption. unfold rep.
+        assert (find_id tail' d = None) as ->; [| reflexivity].
+        apply find_id_none. intros Hin. apply Hno. unfold tail' in Hin. now apply lids_filter_incl in Hin.
+Qed.
+
+(* ---- the stage in closed form ---- *)
+Theorem dedup_closed l : NoDup (lids l) -> dedup l = map (D (rep l)) (nub (length l) l).
+Proof.
+  intros Hnd. rewrite dedup_fact. apply map_ext. intros f. apply D_ext. intros d.
+  now apply sigma_rep.
+Qed.
+
+(* ---- what the stage guarantees, relative to its input ---- *)
+Lemma first_with_key_some l f : In f l -> exists h, first_with_key l f = Some h /\ In h l /\ equal_single_fetch h f = true.
+Proof.
+  intros Hf. unfold first_with_key. destruct (find (fun g => equal_single_fetch g f) l) as [h |] eqn:E.
+  - exists h. apply find_some in E. tauto.
+  - exfalso. apply (find_none _ _ E f) in Hf. rewrite esf_refl in Hf. discriminate.
+Qed.
+
+Lemma first_with_key_congr l f f' : key f = key f' -> first_with_key l f = first_with_key l f'.
+Proof.
+  intros H. unfold first_with_key. induction l as [| x l IH]; simpl; [reflexivity |].
+  rewrite (esf_congr_r x f f' H). destruct (equal_single_fetch x f'); [reflexivity | exact IH].
+Qed.
+
+Lemma ids_strip l : ids (map strip l) = lids l.
+Proof. unfold ids, lids. rewrite map_map. reflexivity. Qed.
+
+Section DedupFacts.
+  Variable l : list lfetch.
+  Hypothesis Hnd : NoDup (lids l).
+
+  Lemma dedup_origin g : In g (dedup l) ->
+    exists f, In f l /\ lf_id g = lf_id f /\ lf_deps g = map (rep l) (lf_deps f) /\ key g = key f /\
+              first_with_key l f = Some f.
+  Proof.
+    rewrite (dedup_closed l Hnd). intros Hg. apply in_map_iff in Hg. destruct Hg as [g0 [<- Hg0]].
+    destruct (nub_origin (length l) l (le_n _) g0 Hg0) as [f [Hf [H1 [H2 [H3 H4]]]]].
+    exists f. simpl. repeat split; auto. now rewrite H2.
+  Qed.
+
+  Lemma dedup_lids : lids (dedup l) = lids (nub (length l) l).
+  Proof. rewrite (dedup_closed l Hnd). unfold lids. rewrite map_map. reflexivity. Qed.
+
+  Lemma dedup_ids_nodup : NoDup (lids (dedup l)).
+  Proof. rewrite dedup_lids. now apply nub_ids_nodup. Qed.
+
+  Lemma dedup_ids_incl : incl (lids (dedup l)) (lids l).
+  Proof. rewrite dedup_lids. now apply nub_ids_incl. Qed.
+
+  Lemma dedup_keys_nodup : NoDup (map key (dedup l)).
+  Proof.
+    rewrite (dedup_closed l Hnd), map_map. rewrite (map_ext _ key) by (intros; apply key_D).
+    now apply nub_keys_nodup.
+  Qed.
+
+  Lemma dedup_covers f : In f l -> exists g, In g (dedup l) /\ key g = key f.
+  Proof.
+    intros Hf. destruct (nub_covers (length l) l (le_n _) f Hf) as [g [Hg Hk]].
+    exists (D (rep l) g). split; [| exact Hk]. rewrite (dedup_closed l Hnd). now apply in_map.
+  Qed.
+
+  (* the survivor of a key is the first fetch with that key *)
+  Lemma survivor_of_first h : In h l -> first_with_key l h = Some h -> In (lf_id h) (lids (dedup l)).
+  Proof.
+    intros Hh Hfirst. destruct (dedup_covers h Hh) as [g [Hg Hk]].
+    destruct (dedup_origin g Hg) as [f [Hf [Hi [_ [Hkf Hff]]]]].
+    assert (E : first_with_key l f = first_with_key l h) by (apply first_with_key_congr; congruence).
+    rewrite Hff, Hfirst in E. injection E as ->. rewrite <- Hi. unfold lids. now apply in_map.
+  Qed.
+
+  Lemma rep_spec d : In d (lids l) ->
+    exists f h, In f l /\ lf_id f = d /\ In h l /\ equal_single_fetch h f = true /\
+                first_with_key l h = Some h /\ rep l d = lf_id h.
+  Proof.
+    intros Hd. unfold rep. destruct (find_id l d) as [f |] eqn:Ef.
+    - apply find_id_some in Ef as Hf. destruct Hf as [Hf Hid].
+      destruct (first_with_key_some l f Hf) as [h [Hh [Hhl Hhf]]]. rewrite Hh.
+      exists f, h. repeat split; auto.
+      rewrite <- Hh. apply first_with_key_congr. now apply esf_key.
+    - apply find_id_none in Ef. contradiction.
+  Qed.
+
+  Lemma rep_in_dedup d : In d (lids l) -> In (rep l d) (lids (dedup l)).
+  Proof.
+    intros Hd. destruct (rep_spec d Hd) as [f [h [_ [_ [Hh [_ [Hfirst ->]]]]]]]. now apply survivor_of_first.
+  Qed.
+
+  Lemma rep_outside d : ~ In d (lids l) -> rep l d = d.
+  Proof. intros H. unfold rep. apply find_id_none in H. now rewrite H. Qed.
+
+  Lemma dedup_keys_distinct : keys_distinct (dedup l).
+  Proof.
+    intros pre f mid g post E. pose proof dedup_keys_nodup as H. rewrite E in H.
+    rewrite map_app in H. simpl in H. apply NoDup_remove_2 in H.
+    destruct (equal_single_fetch f g) eqn:Efg; [| reflexivity]. exfalso. apply H.
+    apply in_or_app. right. rewrite map_app. apply in_or_app. right. simpl. left.
+    symmetry. now apply esf_key.
+  Qed.
+
+  Lemma dedup_same_requests : same_requests l (dedup l).
+  Proof.
+    split.
+    - intros f Hf. destruct (dedup_covers f Hf) as [g [Hg Hk]]. exists g. split; [exact Hg | now apply esf_key].
+    - intros g Hg. destruct (dedup_origin g Hg) as [f [Hf [_ [_ [Hk _]]]]]. exists f. split; [exact Hf | now apply esf_key].
+  Qed.
+
+  Lemma dedup_acyclic : dup_rank_compatible l -> acyclic (map strip (dedup l)).
+  Proof.
+    intros [rank [Hr1 Hr2]]. exists rank. intros f' d' Hf' Hd' Hin.
+    apply in_map_iff in Hf'. destruct Hf' as [g [<- Hg]]. simpl in *.
+    destruct (dedup_origin g Hg) as [f [Hf [Hi [Hdeps _]]]].
+    rewrite Hdeps in Hd'. apply in_map_iff in Hd'. destruct Hd' as [d [<- Hd]].
+    rewrite ids_strip in Hin. rewrite Hi.
+    destruct (in_dec Nat.eq_dec d (lids l)) as [Hdl | Hdl].
+    - destruct (rep_spec d Hdl) as [fd [h [Hfd [Hid [Hh [Hhf [_ ->]]]]]]].
+      rewrite (Hr2 h fd Hh Hfd Hhf), Hid. now apply Hr1.
+    - rewrite (rep_outside d Hdl) in *. exfalso. apply Hdl. now apply dedup_ids_incl.
+  Qed.
+
+  Theorem dedup_transparent_proof :
+    dup_rank_compatible l ->
+    NoDup (lids (dedup l)) /\ acyclic (map strip (dedup l)) /\ keys_distinct (dedup l) /\ same_requests l (dedup l) /\
+    forall sched multi trigger t, organize sched multi trigger (map strip (dedup l)) = Done t ->
+      plan_respects t (map strip (dedup l)) /\ exactly_once t (map strip (dedup l)) /\
+      (dups_agree l -> forall s, lin t s -> forall f d, In f l -> In d (lf_deps f) -> In d (lids l) ->
+         before (Merge (rep l d)) (Prepare (rep l (lf_id f))) s).
+  Proof.
+    intros Hrank.
+    pose proof dedup_ids_nodup as Hnd'. pose proof (dedup_acyclic Hrank) as Hac.
+    split; [exact Hnd' |]. split; [exact Hac |]. split; [apply dedup_keys_distinct |].
+    split; [apply dedup_same_requests |].
+    intros sched multi trigger t Ht.
+    assert (Hu : unique_ids (map strip (dedup l))) by (unfold unique_ids; now rewrite ids_strip).
+    destruct (C08.ProofsOrganize.organize_respects_deps_proof sched multi trigger _ t Hac Hu Ht) as [Hpr Heo].
+    split; [exact Hpr |]. split; [exact Heo |].
+    { intros Hagree s Hlin f d Hf Hd Hdl.
+      destruct (first_with_key_some l f Hf) as [f0 [Hf0 [Hf0l Hesf]]].
+      assert (Hfirst : first_with_key l f0 = Some f0).
+      { rewrite <- Hf0. apply first_with_key_congr. now apply esf_key. }
+      assert (Hrepf : rep l (lf_id f) = lf_id f0).
+      { unfold rep. rewrite (find_id_in l f Hnd Hf). now rewrite Hf0. }
+      (* the survivor g of f0 *)
+      destruct (dedup_covers f0 Hf0l) as [g [Hg Hkg]].
+      destruct (dedup_origin g Hg) as [f1 [Hf1 [Hi [Hdeps [Hk1 Hfirst1]]]]].
+      assert (f1 = f0).
+      { assert (E : first_with_key l f1 = first_with_key l f0) by (apply first_with_key_congr; congruence).
+        rewrite Hfirst1, Hfirst in E. congruence. }
+      subst f1.
+      destruct (Hagree f0 f Hf0l Hf Hesf d Hd Hdl) as [d' [Hd' Hrep]].
+      rewrite Hrepf, <- Hi, <- Hrep.
+      apply (Hpr s Hlin (strip g) (rep l d')).
+      + now apply in_map.
+      + simpl. rewrite Hdeps. now apply in_map.
+      + rewrite ids_strip, Hrep. now apply rep_in_dedup. }
+  Qed.
+End DedupFacts.
